@@ -20,4 +20,7 @@ def natDigits (n : Nat) : Bytes := natDigitsF (n + 1) n
 /-- `strconv.Itoa` / fmt verb `%d`: the decimal digits, with a leading `-` for negatives -/
 def dec (n : Int) : Bytes := if n < 0 then 45 :: natDigits n.natAbs else natDigits n.toNat
 
+/-- `strconv.Itoa` as a String (kept for the FASTA description model) -/
+def itoa (n : Int) : String := toString n
+
 end Gts
